@@ -9,7 +9,25 @@ _spec = importlib.util.spec_from_file_location("translate_dfa", os.path.join(_ro
 _dfa = importlib.util.module_from_spec(_spec)
 _spec.loader.exec_module(_dfa)
 
+def _sweep(ctx):
+    """exhaustive short-input sweep through the real decoders (crash isolation in a child process)"""
+    import json
+    import subprocess
+    try:
+        p = subprocess.run([ctx["exe"], "tool", "c02sweep"], env=ctx["env"], stdout=subprocess.PIPE, stderr=subprocess.DEVNULL,
+                           timeout=1200, text=True)
+        out = json.loads(p.stdout)
+    except Exception as e:  # noqa: BLE001
+        return {"violations": [{"kind": "failing-input", "what": "short-input sweep did not complete: %s" % e, "case": {}}]}
+    vio = [{"kind": "failing-input", "what": "short-input sweep: crash, chunking-dependent events, empty or out-of-order raw event",
+            "case": v} for v in out.get("violations", [])[:5]]
+    return {"violations": vio, "coverage": {"sweep_strings": out.get("strings", 0), "sweep_failures": len(out.get("violations", []))},
+            "notes": ["exhaustive sweep of all 2-byte strings (both decoders) and all ESC [ + 2 bytes: %d strings, %d failures"
+                      % (out.get("strings", 0), len(out.get("violations", [])))]}
+
+
 PROP = {'gen': [],
+ 'extra': [_sweep],
  'pre_coq': [_dfa.pre_coq],
  'coq_props': ['theories/Props/C02.vo'],
  'coq_corr': ['theories/Corr/C02Corr.vo'],
